@@ -14,6 +14,7 @@ expected per-row verdicts, and the substance of the check is the replay:
     prediction in all three.
 """
 import csv
+import io
 import os
 
 from harness import core, c09, odslib, session_props
@@ -220,6 +221,39 @@ def carriage_returns(report, folder):
                                  [row[1] for row in table], storage, got, want))
 
 
+def cid_cells_with_blanks(report, folder):
+    """
+    CID cells whose blanks count (a blank as thousands separator, an example and a check description that start with one)
+    and a rule with blanks around it: 'the same CID contents stored as CSV text,
+    ODS or Excel load into equivalent interface definitions' -- and into the one written down here.
+    """
+    import cutplace
+    rows = [["D", "Format", "delimited"], ["D", "Item delimiter", ";"], ["D", "Decimal separator", ","], ["D", "Thousands separator", " "],
+            ["F", "amount", "1 234,5", "", "", "Decimal"], ["F", "note", " n/a", "X"], ["F", "code", "", "X", "1...2", "Choice", " a, b "],
+            ["C", " note is unique ", "IsUnique", "note"]]
+    want = {"thousands": " ", "decimal": ",", "fields": [["amount", "DecimalFieldFormat", False, "None", "", "1 234,5"],
+                                                          ["note", "TextFieldFormat", True, "None", "", " n/a"],
+                                                          ["code", "ChoiceFieldFormat", True, "1...2", "a, b", None]],
+            "checks": [[" note is unique ", "IsUniqueCheck", "note"]]}
+    width = max(len(row) for row in rows)
+    data = "1 234,5; n/a;a\r\n17;x;b\r\n1 2,5;y;\r\n"
+    for storage, suffix in (("csv", ".csv"), ("ods", ".ods"), ("xlsx", ".xlsx")):
+        path = os.path.join(folder, "blanks" + suffix)
+        write_table(path, storage, [row + [""] * (width - len(row)) if storage != "csv" else row for row in rows])
+        report.replayed += 1
+        try:
+            cid = cutplace.Cid(path)
+            described = describe(cid)
+            got = {"thousands": described["format"]["_thousands_separator"], "decimal": described["format"]["_decimal_separator"],
+                   "fields": described["fields"], "checks": described["checks"]}
+            verdicts = ["bad" if isinstance(item, Exception) else "ok" for item in cutplace.rows(cid, io.StringIO(data, newline=""), on_error="yield")]
+        except Exception as error:  # noqa
+            got, verdicts = "%s: %s" % (type(error).__name__, error), None
+        if got != want or verdicts != ["ok", "ok", "ok"]:
+            report.violation("c17", {"cid_blanks": storage}, want, got,
+                             "CID %r stored as %s loads as %r (verdicts for three good rows: %r) but %r was written" % (rows, storage, got, verdicts, want))
+
+
 def replay(behaviour, report=None):
     core.import_repo()
     folder = core.workdir("c17replay")
@@ -277,6 +311,7 @@ def run(tier, report):
             record(stored, problems)
         midnight_texts(report, folder)
         carriage_returns(report, folder)
+        cid_cells_with_blanks(report, folder)
         if not report.violations and tables:
             corrupted = core.json.loads(core.json.dumps(tables[0]))
             out = corrupted["hist"][0]["fresh"]["out"]
